@@ -2,6 +2,7 @@
 use crate::common::*;
 use crate::mock::{Model, Op};
 use crate::sclient::{self, Act, Cfg as CCfg, Dl, Order, YEAR_MS};
+use crate::codec::{self, C15Cfg, EndMode, Link};
 use crate::e2e::{self, Cfg as ECfg, Tk};
 use crate::misc::{self, HasherKind, L};
 use crate::sserver::{self, Cfg as SCfg, Mode, SAct, SDl};
@@ -60,6 +61,9 @@ pub fn run(ctx: &RunCtx) -> i32 {
         "C11" => family_prop(ctx, &["client", "server", "client", "server", "e2e"]),
         "C09" => c09(ctx),
         "C13" => c13(ctx),
+        "C15" => c15(ctx),
+        "C16" => c16(ctx),
+        "C16bytes" => c16_bytes_worker(ctx),
         "C19" => c19(ctx),
         "C20" => c20(ctx),
         p => {
@@ -1267,4 +1271,349 @@ fn e2e_required_cells(prop: &str) -> Vec<String> {
         _ => vec![],
     };
     v.into_iter().map(String::from).collect()
+}
+
+// ------------------------------------------------------------------------------------------
+// C15: shipped transports deliver messages intact and in order
+
+fn c15(ctx: &RunCtx) -> i32 {
+    let seed = ctx.seed;
+    let n = ctx.n(6_000, 300_000);
+    let tier = ctx.tier.clone();
+    let agg = run_parallel(ctx.prop, n, &ctx.known, |i| {
+        if i == 0 {
+            return codec::c15_kinds_and_optionals();
+        }
+        if i == 1 {
+            return uds_smoke(seed);
+        }
+        if i % 10 == 9 {
+            // whole-stack integrity on real client/server chains
+            let cfg = e2e_cfg("C15", i / 10, seed);
+            let mut o = e2e::run(&cfg);
+            tag(&mut o, i / 10, seed, "C15", &tier);
+            return o;
+        }
+        let s = mix(seed, i ^ 0xC15);
+        let mut r = Rng::new(s);
+        let links = [Link::Unbounded, Link::Bounded(0), Link::Bounded(1), Link::Bounded(4), Link::Json, Link::Bincode, Link::Json, Link::Bincode];
+        let link = links[(i % 8) as usize];
+        let end = if matches!(link, Link::Unbounded) || r.chance(1, 2) { EndMode::Drop } else { EndMode::Close };
+        let max_chunk = *r.pick(&[1usize, 1, 2, 7, 64, 4096]);
+        let big = max_chunk >= 64 && r.chance(1, 6);
+        let cfg = C15Cfg {
+            seed: s,
+            link,
+            c2s: r.chance(1, 2),
+            n: if big { 1 + r.below(20) } else { *r.pick(&[1usize, 2, 3, 10, 50, 200]) },
+            big,
+            max_chunk,
+            pending_pct: *r.pick(&[0u64, 0, 20, 60]),
+            end,
+        };
+        codec::c15_case(&cfg)
+    });
+    let rep = Report {
+        level: "exploration",
+        rule: "S-codec: generated message sequences (all variants, boundary ids, empty / unicode / 64 KiB / 1 MiB bodies, every io::ErrorKind the platform can produce, every trace-context extreme) written at one end of each shipped transport (unbounded, bounded(0,1,4), serde JSON and bincode with the codec exactly as shipped over a byte pipe that fragments reads and writes down to 1 byte and injects Pending) and compared item by item with what the other end reads, then end-of-stream after drop or close; plus whole client/server chains from S-e2e (every 10th case), a real Unix-socket pair, and hand-edited JSON with optional fields removed. Distinct = distinct (link, direction, fragmentation, end mode, length, variant prefix)".into(),
+        agg,
+        extra: BTreeMap::new(),
+        assumptions: vec!["real TCP is not exercised; the byte-stream quantifier is approximated by adversarial fragmentation of an in-memory pipe and a Unix-socket smoke run".into()],
+        required_cells: vec![
+            "C15.all-error-kinds".into(),
+            "C15.cancel-without-trace-context".into(),
+            "C15.request-without-deadline".into(),
+            "C15.Json.c2s.Close".into(),
+            "C15.Bincode.s2c.Drop".into(),
+            "C15.Bounded_0_.c2s.Drop".into(),
+            "C15.Unbounded.s2c.Drop".into(),
+            "C15.frag.chunk1.pendingyes".into(),
+            "C15.big-bodies".into(),
+            "C15.uds-smoke".into(),
+        ],
+        exhaustive: None,
+    };
+    finish(ctx, rep)
+}
+
+fn uds_smoke(seed: u64) -> Outcome {
+    use futures::{SinkExt, StreamExt};
+    use tarpc::{ClientMessage, Response};
+    let mut out = Outcome::default();
+    out.desc = json!({"family": "S-codec", "case": "unix-socket smoke"});
+    let rt = tokio::runtime::Builder::new_current_thread().enable_all().build().unwrap();
+    let r = rt.block_on(async {
+        let (a, b) = tokio::net::UnixStream::pair()?;
+        let mut c = tarpc::serde_transport::new(
+            tokio_util::codec::Framed::new(a, tokio_util::codec::LengthDelimitedCodec::new()),
+            tokio_serde::formats::Bincode::<Response<String>, ClientMessage<String>>::default(),
+        );
+        let mut s = tarpc::serde_transport::new(
+            tokio_util::codec::Framed::new(b, tokio_util::codec::LengthDelimitedCodec::new()),
+            tokio_serde::formats::Bincode::<ClientMessage<String>, Response<String>>::default(),
+        );
+        let mut r = Rng::new(seed);
+        let msgs = codec::gen_s2c(&mut r, 50, false);
+        let msgs2 = msgs.clone();
+        let w = async move {
+            for m in msgs2.iter() {
+                if let codec::Msg::Resp { id, body } = m {
+                    let resp = Response { request_id: *id, message: body.clone().map_err(|(k, d)| tarpc::ServerError::new(k, d)) };
+                    s.send(resp).await?;
+                }
+            }
+            drop(s);
+            Ok::<(), std::io::Error>(())
+        };
+        let rd = async move {
+            let mut got = vec![];
+            while let Some(x) = c.next().await {
+                got.push(x?);
+            }
+            Ok::<Vec<Response<String>>, std::io::Error>(got)
+        };
+        let (wr, got) = tokio::join!(w, rd);
+        wr?;
+        let got = got?;
+        Ok::<(Vec<codec::Msg>, Vec<Response<String>>), std::io::Error>((msgs, got))
+    });
+    match r {
+        Err(e) => out.inconclusive = Some(format!("unix socket smoke could not run: {e}")),
+        Ok((msgs, got)) => {
+            if msgs.len() != got.len() {
+                out.viol("C15", "item-count", format!("unix socket: {} written, {} read", msgs.len(), got.len()));
+            }
+            for (m, g) in msgs.iter().zip(got.iter()) {
+                if let codec::Msg::Resp { id, body } = m {
+                    let same = *id == g.request_id
+                        && match (body, &g.message) {
+                            (Ok(a), Ok(b)) => a == b,
+                            (Err((k, d)), Err(e)) => *d == e.detail && (e.kind == *k || (!codec::PORTABLE.contains(k) && e.kind == std::io::ErrorKind::Other)),
+                            _ => false,
+                        };
+                    if !same {
+                        out.viol("C15", "item-altered-or-reordered", format!("unix socket: wrote {m:?}, read {g:?}"));
+                        break;
+                    }
+                }
+            }
+            out.cell("C15.uds-smoke");
+            out.nontrivial("C15");
+            out.count("items_round_tripped", got.len() as u64);
+        }
+    }
+    out.sig = 0x0d5;
+    out.trace = vec!["50 responses over a real Unix-domain socket pair (bincode)".into()];
+    out
+}
+
+// ------------------------------------------------------------------------------------------
+// C16: no peer-supplied input can crash an endpoint
+
+#[derive(Clone, Copy, Debug)]
+enum SubMode {
+    None,
+    Fmt,
+    Otel,
+}
+fn with_subscriber<T>(m: SubMode, f: impl FnOnce() -> T) -> T {
+    use tracing_subscriber::layer::SubscriberExt;
+    match m {
+        SubMode::None => f(),
+        SubMode::Fmt => {
+            let sub = tracing_subscriber::fmt().with_writer(std::io::sink).with_max_level(tracing::Level::TRACE).finish();
+            tracing::subscriber::with_default(sub, f)
+        }
+        SubMode::Otel => {
+            use opentelemetry::trace::TracerProvider as _;
+            let provider = opentelemetry_sdk::trace::TracerProvider::builder().build();
+            let tracer = provider.tracer("tarpc-verif");
+            let sub = tracing_subscriber::registry().with(tracing_opentelemetry::layer().with_tracer(tracer));
+            tracing::subscriber::with_default(sub, f)
+        }
+    }
+}
+
+const Y: u64 = 31_536_000;
+fn c16_client_cfg(i: u64, seed: u64) -> CCfg {
+    let s = mix(seed, i ^ 0xC16C);
+    let mut c = CCfg::random(s);
+    let mut r = Rng::new(s ^ 1);
+    c.label = "C16-local-deadlines";
+    c.extreme_deadlines = true;
+    let ext = [Dl::Beyond(2 * Y), Dl::Beyond(3 * Y), Dl::Beyond(100 * Y), Dl::Beyond(10_000 * Y), Dl::Beyond(u64::MAX / 4), Dl::Beyond(u64::MAX), Dl::Beyond(8_000 * Y), Dl::Ms(YEAR_MS), Dl::Ms(0), Dl::Past];
+    c.deadlines = (0..3).map(|_| *r.pick(&ext)).collect();
+    c.deadlines.push(Dl::Ms(10_000));
+    c.ncalls = 2 + r.below(5);
+    c.real_delay = false;
+    c
+}
+fn c16_server_cfg(i: u64, seed: u64) -> SCfg {
+    let s = mix(seed, i ^ 0xC165);
+    let mut c = SCfg::random(s);
+    let mut r = Rng::new(s ^ 1);
+    c.label = "C16-peer-messages";
+    c.extreme = true;
+    let ext = [SDl::Beyond(2 * Y), SDl::Beyond(3 * Y), SDl::Beyond(100 * Y), SDl::Beyond(10_000 * Y), SDl::Beyond(u64::MAX / 4), SDl::Max, SDl::Beyond(8_000 * Y), SDl::Ms(YEAR_MS), SDl::Ms(0), SDl::Past];
+    c.deadlines = (0..3).map(|_| *r.pick(&ext)).collect();
+    c.deadlines.push(SDl::Ms(10_000));
+    c.cancel_pct = *r.pick(&[10, 40]);
+    c.dup_pct = *r.pick(&[8, 40]);
+    c.nmsgs = 3 + r.below(14);
+    c
+}
+/// F7: a timer armed after the DelayQueue has not fired anything for a very long time
+fn c16_f7_cfg(seed: u64) -> SCfg {
+    let mut c = SCfg::base(seed);
+    c.label = "C16-long-uptime-then-year-deadline";
+    c.nmsgs = 0;
+    c.drop_pct = 0;
+    c.hold_pct = 0;
+    c.droph_pct = 0;
+    c.err_pct = 0;
+    c.extreme = true;
+    c.script = vec![
+        SAct::Fresh(SDl::Ms(10_000)),
+        SAct::RunIdle,
+        SAct::OpenAllGates,
+        SAct::RunIdle,
+        SAct::Advance(YEAR_MS + YEAR_MS / 4),
+        SAct::RunIdle,
+        SAct::Fresh(SDl::Ms(YEAR_MS)),
+        SAct::RunIdle,
+        SAct::OpenAllGates,
+        SAct::RunIdle,
+    ];
+    c
+}
+
+fn c16(ctx: &RunCtx) -> i32 {
+    let seed = ctx.seed;
+    let n = ctx.n(12_000, 600_000);
+    let tier = ctx.tier.clone();
+    // hostile bytes run in a child process so that an allocation abort is observed, not suffered
+    let exe = std::env::current_exe().expect("current exe");
+    let child = std::process::Command::new(exe)
+        .arg("C16bytes")
+        .arg(&ctx.tier)
+        .env("VERIF_SEED", format!("{}", ctx.seed as i64))
+        .env("VERIF_DIR", &ctx.verif_dir)
+        .output();
+    let mut agg = run_parallel(ctx.prop, n + 84, &ctx.known, |i| {
+        if i < 84 {
+            return codec::c16_wire_deadline_case((i / 2) as usize, i % 2 == 0);
+        }
+        let j = i - 84;
+        let mode = [SubMode::None, SubMode::Fmt, SubMode::Otel][(j % 3) as usize];
+        let mname = ["no-subscriber", "fmt-subscriber", "otel-subscriber"][(j % 3) as usize];
+        let mut o = if j % 600 == 7 {
+            let cfg = c16_f7_cfg(mix(seed, j));
+            with_subscriber(mode, || sserver::run(&cfg))
+        } else if (j / 3) % 2 == 0 {
+            let cfg = c16_client_cfg(j / 6, seed);
+            let mut o = with_subscriber(mode, || sclient::run(&cfg));
+            tag(&mut o, j / 6, seed, "C16client", &tier);
+            o
+        } else {
+            let cfg = c16_server_cfg(j / 6, seed);
+            let mut o = with_subscriber(mode, || sserver::run(&cfg));
+            tag(&mut o, j / 6, seed, "C16server", &tier);
+            o
+        };
+        if let Value::Object(m) = &mut o.desc {
+            m.insert("subscriber".into(), json!(mname));
+        }
+        o.cell(format!("C16.{mname}"));
+        // F7 signature: a panic of DelayQueue::insert after more than a year without a fired timer
+        for v in o.viols.iter_mut() {
+            if v.prop == "C16" && v.rule == "panic" && v.msg.contains("invalid deadline") && o.desc["label"] == "C16-long-uptime-then-year-deadline" {
+                v.state = "delayqueue-insert/uptime>1y-without-fired-timer".into();
+            }
+        }
+        o
+    });
+    // merge the child's result
+    match child {
+        Err(e) => agg.inconclusive.push(format!("could not run the hostile-bytes worker: {e}")),
+        Ok(outp) => {
+            let stdout = String::from_utf8_lossy(&outp.stdout).to_string();
+            let code = outp.status.code();
+            match code {
+                Some(0) | Some(1) => {
+                    let path = format!("{}/evidence/C16bytes.json", ctx.verif_dir);
+                    if let Ok(s) = std::fs::read_to_string(&path) {
+                        if let Ok(v) = serde_json::from_str::<Value>(&s) {
+                            let ev = v["coverage"]["evaluations"].as_u64().unwrap_or(0);
+                            agg.evaluations += ev;
+                            if let Some(c) = v["coverage"]["cells"].as_object() {
+                                for (k, n) in c {
+                                    *agg.cells.entry(k.clone()).or_default() += n.as_u64().unwrap_or(0);
+                                }
+                            }
+                            if let Some(c) = v["coverage"]["observed_events"].as_object() {
+                                for (k, n) in c {
+                                    *agg.counters.entry(k.clone()).or_default() += n.as_u64().unwrap_or(0);
+                                }
+                            }
+                            for k in 0..v["coverage"]["distinct_nontrivial"].as_u64().unwrap_or(0) {
+                                agg.sigs.insert(mix(0xB17E5, k));
+                            }
+                            if let Some(w) = v["coverage"]["violation_witnesses"].as_array() {
+                                for x in w {
+                                    agg.viols.push((
+                                        Viol::new("C16", "panic", x["message"].as_str().unwrap_or("").to_string()),
+                                        json!({"family": "S-codec", "worker_replay": x["replay"]}),
+                                        vec![],
+                                    ));
+                                }
+                            }
+                        }
+                        let _ = std::fs::remove_file(&path);
+                    }
+                    if code == Some(1) && !stdout.contains("VIOLATION") {
+                        agg.inconclusive.push("hostile-bytes worker exited 1 without a violation line".into());
+                    }
+                }
+                Some(3) => agg.inconclusive.push("hostile-bytes worker was inconclusive".into()),
+                other => {
+                    // killed by a signal / abort: the endpoint took the process down
+                    agg.viols.push((
+                        Viol::new("C16", "abort", format!("the endpoint process died while decoding hostile bytes (status {other:?}); last output: {}", stdout.lines().last().unwrap_or(""))),
+                        json!({"family": "S-codec", "case": "hostile-bytes worker"}),
+                        vec![],
+                    ));
+                }
+            }
+        }
+    }
+    let rep = Report {
+        level: "exploration",
+        rule: "(a) hostile byte strings (mutated valid encodings: bit flips, truncation, length-field edits, splices, garbage) fed to real server channels and client dispatches over both framed codecs, in a child process; (b) 84 wire-level boundary deadlines (0 .. u64::MAX seconds, nanos at limits) sent to a real server over JSON and bincode followed by a probe that must still be served; (c) S-server scenarios with extreme ids / deadlines decades to the numeric limits away / duplicate and unknown-id floods and S-client scenarios with extreme local caller deadlines, each under no subscriber, a formatting subscriber and an OpenTelemetry subscriber. Any panic caught around a poll is the violation. Distinct = distinct behaviour signatures".into(),
+        agg,
+        extra: BTreeMap::new(),
+        assumptions: vec!["panics are observed with catch_unwind around every poll of tarpc code and by the exit status of the child process".into()],
+        required_cells: vec![
+            "C16.no-subscriber".into(),
+            "C16.fmt-subscriber".into(),
+            "C16.otel-subscriber".into(),
+            "C16.wire-deadline.accepted".into(),
+            "C16.bytes.json.server".into(),
+            "C16.bytes.bincode.server".into(),
+            "C16.bytes.json.client".into(),
+            "C16.bytes.bincode.client".into(),
+        ],
+        exhaustive: None,
+    };
+    finish(ctx, rep)
+}
+
+fn c16_bytes_worker(ctx: &RunCtx) -> i32 {
+    let n = ctx.n(20_000, 1_000_000);
+    let seed = ctx.seed;
+    let agg = run_parallel("C16", n, &ctx.known, |i| codec::c16_bytes_case(mix(seed, i ^ 0xB17E)));
+    let ctx2 = RunCtx { prop: "C16", tier: ctx.tier.clone(), seed: ctx.seed, started: ctx.started, known: ctx.known.clone(), verif_dir: ctx.verif_dir.clone() };
+    let rep = Report { level: "exploration", rule: "hostile bytes worker".into(), agg, extra: BTreeMap::new(), assumptions: vec![], required_cells: vec![], exhaustive: None };
+    // written under a different name so that the parent can merge it
+    let code = finish_named(&ctx2, rep, "C16bytes");
+    code
 }
